@@ -103,6 +103,7 @@ class _SimFuture:
         if self.done_:
             return
         SIM_THREADS["tasks"] += 1
+        self.finished_at = SIM_THREADS["tasks"]  # completion order = the order the simulator ran the tasks in
         try:
             self.value = self.fn(*self.args, **self.kw)
         except BaseException as e:  # noqa: BLE001 - delivered to whoever asks for the result, like a real future
@@ -195,15 +196,46 @@ class _SimThreadPoolMp(SimThreadPool):
         return list(SimThreadPool.map(self, fn, iterable))
 
 
+def _sim_as_completed(fs, timeout=None):
+    """concurrent.futures.as_completed for simulated futures: everything pending is run (in the seeded order), then
+    the futures come back in the order in which they finished."""
+    fs = list(fs)
+    sim = [f for f in fs if isinstance(f, _SimFuture)]
+    if len(sim) != len(fs):
+        return _REAL["as_completed"](fs, timeout)
+    for f in sim:
+        f.pool._drain()
+    return iter(sorted(sim, key=lambda f: f.finished_at))
+
+
+def _sim_wait(fs, timeout=None, return_when="ALL_COMPLETED"):
+    fs = list(fs)
+    sim = [f for f in fs if isinstance(f, _SimFuture)]
+    if len(sim) != len(fs):
+        return _REAL["wait"](fs, timeout, return_when)
+    for f in sim:
+        f.pool._drain()
+    import collections
+
+    return collections.namedtuple("DoneAndNotDoneFutures", "done not_done")(set(sim), set())
+
+
+_REAL = {}
+
+
 def install_sim_threads():
     if SIM_THREADS["installed"]:
         return
     import concurrent.futures as _cf
+    import concurrent.futures._base as _cfb
     import concurrent.futures.thread as _cft
     import multiprocessing.pool as _mpp
 
     _cf.ThreadPoolExecutor = SimThreadPool
     _cft.ThreadPoolExecutor = SimThreadPool
+    _REAL["as_completed"], _REAL["wait"] = _cfb.as_completed, _cfb.wait
+    _cf.as_completed = _cfb.as_completed = _sim_as_completed
+    _cf.wait = _cfb.wait = _sim_wait
     _mpp.ThreadPool = _SimThreadPoolMp
     try:
         import multiprocessing.dummy as _mpd
@@ -317,6 +349,97 @@ class SimEnv:
         return False
 
 
+# --------------------------------------------------------------------------------------
+# fault points inside a step: the simulator's to fire
+#
+#   h5.open    opening an HDF5 file fails once with OSError(EAGAIN) ("unable to lock file": a transient I/O error)
+#   h5.write   the process is killed while a file is being written: the k-th dataset creation never happens (the
+#              file is closed as the interpreter unwinds: well-formed, but holding only what was written so far)
+#   model.step one Gibbs step of a shipped model fails with numpy.linalg.LinAlgError (a failed Cholesky)
+#
+# A step hit by a transient fault may fail; if it reports success its output must be what the fault-free step gives.
+
+class SimKilled(BaseException):
+    pass
+
+
+def _inside_simulated_process():
+    f = sys._getframe(2)
+    here = os.path.abspath(__file__)
+    while f is not None:
+        if f.f_code.co_name == "run_cli" and os.path.abspath(f.f_code.co_filename) == here:
+            return True
+        f = f.f_back
+    return False
+
+
+class FaultPoints:
+    def __init__(self, fire=None, everywhere=False):
+        self.everywhere = everywhere  # also count file accesses made outside a simulated CLI process
+        self.fire = dict(fire or {})  # kind -> 1-based index of the occurrence that fails
+        self.seen = {}
+        self.fired = []
+        self._saved = []
+
+    def _hit(self, kind):
+        if kind.startswith("h5.") and not self.everywhere and not _inside_simulated_process():
+            return False  # the harness reading a file back to judge it is not part of the step
+        self.seen[kind] = self.seen.get(kind, 0) + 1
+        if self.fire.get(kind) == self.seen[kind]:
+            self.fired.append(kind)
+            return True
+        return False
+
+    def __enter__(self):
+        import errno
+
+        import h5py
+
+        fp = self
+        real_init = h5py.File.__init__
+        real_create = h5py.Group.create_dataset
+
+        def file_init(self_, name, mode="r", *a, **k):
+            # (h5py also builds File objects around an already open id, e.g. for dataset.file: not an open)
+            if isinstance(name, (str, bytes, os.PathLike)) and fp._hit("h5.open"):
+                raise OSError(errno.EAGAIN, f"Unable to synchronously open file (unable to lock file, errno = 11, error message = 'Resource temporarily unavailable'): {name}")
+            return real_init(self_, name, mode, *a, **k)
+
+        def create_dataset(self_, *a, **k):
+            if fp._hit("h5.write"):
+                raise SimKilled("killed while writing")
+            return real_create(self_, *a, **k)
+
+        self._saved += [(h5py.File, "__init__", real_init), (h5py.Group, "create_dataset", real_create)]
+        h5py.File.__init__ = file_init
+        h5py.Group.create_dataset = create_dataset
+        for modname, clsname in (("batchie.models.sparse_combo", "SparseDrugCombo"),
+                                 ("batchie.models.sparse_combo_interaction", "SparseDrugComboInteraction")):
+            try:
+                mod = importlib.import_module(modname)
+            except ImportError:
+                mod = None
+            cls = getattr(mod, clsname, None) if mod else None
+            if cls is None or "step" not in cls.__dict__:
+                continue
+            real_step = cls.__dict__["step"]
+
+            def step(self_, *a, _real=real_step, **k):
+                if fp._hit("model.step"):
+                    raise np.linalg.LinAlgError("Matrix is not positive definite")
+                return _real(self_, *a, **k)
+
+            self._saved.append((cls, "step", real_step))
+            cls.step = step
+        return self
+
+    def __exit__(self, *exc):
+        for obj, name, orig in reversed(self._saved):
+            setattr(obj, name, orig)
+        self._saved = []
+        return False
+
+
 def global_state_digest():
     st = np.random.get_state()
     return h64(st[0], st[1].tobytes(), st[2], st[3], st[4], repr(random.getstate()))
@@ -334,6 +457,15 @@ def run_cli(name: str, argv: list, entropy: int | None = None):
     if entropy is not None:
         set_entropy(entropy)
     err = io.StringIO()
+    import time as _time
+
+    real_sleep = _time.sleep
+
+    def sim_sleep(seconds):  # simulated time: a process that sleeps (a retry delay) costs nothing real
+        SIM_SLEEP["calls"] += 1
+        SIM_SLEEP["seconds"] += float(seconds)
+
+    _time.sleep = sim_sleep
     try:
         with contextlib.redirect_stderr(err):
             mod.main()
@@ -342,6 +474,10 @@ def run_cli(name: str, argv: list, entropy: int | None = None):
             raise HarnessError(f"CLI {name} rejected argv {argv}: {err.getvalue()[-500:]}")
     finally:
         sys.argv = old_argv
+        _time.sleep = real_sleep
+
+
+SIM_SLEEP = dict(calls=0, seconds=0.0)
 
 
 class SeedlessRngTrap:
